@@ -47,3 +47,10 @@ Proof. exact snr_ctl_first. Qed.
 Theorem C06_go_during_method_is_noop : forall w,
   b_rounds_flag (w_bot w) = false -> b_opening_flag (w_bot w) = false -> on_go w = w.
 Proof. exact go_during_method_is_noop. Qed.
+
+From Wh Require Import Parse Glue GlueP.
+From Coq Require Import ZArith QArith.
+
+(* "up-down-in mode" is -u or -H on the command line, and always on in server mode *)
+Theorem C06_up_down_in_flag : forall c cfg, console_cfg c = Ok cfg -> bc_udi cfg = (cl_udi c || cl_handbell c).
+Proof. exact up_down_in_flag. Qed.
